@@ -61,6 +61,10 @@ def solve_all(obls, budget, jobs=None, cross=False):
     texts = [to_smt2(o.pc, o.goal) for o in obls]
 
     def work(i):
+        if obls[i].kind == "canary" or obls[i].kind.startswith("cover."):
+            # expected SAT; only z3, short budget (an unknown here is simply 'not refuted on this path')
+            rr, dt, _ = _run([Z3_BIN, "-in", "-T:3"], texts[i], 3)
+            return {"result": rr if rr in ("sat", "unsat") else "unknown", "backend": "z3", "seconds": dt}
         r = solve_one(texts[i], budget)
         if cross and r["result"] in ("sat", "unsat") and CVC5_BIN:
             other = "cvc5" if r["backend"].startswith("z3") else "z3"
